@@ -110,3 +110,17 @@ Theorem C05_source_get_follows_model : forall i,
   src_obs Failover.Legacy i = Some (model_obs Failover.Legacy i) /\ src_obs Failover.Generic i = Some (model_obs Failover.Generic i).
 Proof. intros i; split; [exact (tie_get_legacy i)|exact (tie_get_generic i)]. Qed.
 Print Assumptions C05_source_get_follows_model.
+
+From Cache Require Import TieDefaults.
+
+(* NewFailover / NewFailoverOf: FailedUpdateTTL 0 -> 20s, UpdateTTL 0 -> 1m; the failure cache exists iff
+   FailedUpdateTTL > -1 and its TimeToLive IS FailedUpdateTTL *)
+Theorem C05_source_failure_cache_ttl : forall uttl fttl has_backend,
+  run_new_failover fn_NewFailover uttl fttl has_backend =
+    Some (Some (VZ (eff_update uttl)), Some (VZ (eff_failed fttl)),
+          if -1 <? eff_failed fttl then Some (errors_cache (eff_failed fttl)) else None) /\
+  run_new_failover fn_NewFailoverOf uttl fttl has_backend =
+    Some (Some (VZ (eff_update uttl)), Some (VZ (eff_failed fttl)),
+          if -1 <? eff_failed fttl then Some (errors_cache (eff_failed fttl)) else None).
+Proof. exact tie_failover_defaults. Qed.
+Print Assumptions C05_source_failure_cache_ttl.
